@@ -20,7 +20,8 @@ FAULTS = [
     ("undefined-symbol-set", [".set newset = undefined_sym + 1", ".set framevar = undefined_sym", ".set FrameVar = framevar + undefined_sym",
                               ".set framevar = framevar / (framevar - framevar)", ".set framevar = low(undefined_sym)"]),
     ("undefined-symbol-if", [".if undefined_sym\n.endif", ".if 0\n.elif undefined_sym\n.endif", ".if 1 || undefined_sym\n.endif", ".if 0 && undefined_sym\n.endif"]),
-    ("duplicate-label", ["main_label: nop"]),
+    ("duplicate-label", ["main_label: nop", "main_label:", "MAIN_LABEL: nop"]),
+    ("duplicate-label-other-segment", [".dseg\nmain_label: .byte 1\n.cseg", ".eseg\nmain_label: .db 1\n.cseg", ".dseg\nMain_Label:\n.cseg", ".eseg\nmain_label:\n.cseg"]),
     ("error-directive", [".error \"stop\"", ".error \"\"", ".error \" \"", ".error \"\t\"", ".error \"a;b\"", ".error \"x // y\"", "  .error \"indented\" ; why",
                          ".ERROR_NOT", "lbl_e: .error \"after a label\""]),
     ("unknown-directive", [".frobnicate 1", ".list"]),
@@ -132,6 +133,8 @@ def run(res):
             if kind == "undefined-symbol-if" and "\n.elif" in v:
                 want = pos + 2
             if kind == "undef-unknown" and "\n" in v:
+                want = pos + 2
+            if kind == "duplicate-label-other-segment":
                 want = pos + 2
             cases.append(("\n".join(ls) + "\n", kind, want, v))
     # messages: valid programs with .message/.warning sprinkled in, also inside taken/untaken conditional arms
